@@ -29,6 +29,8 @@ MIN_EVENTS = {'quick': {'oracle:roundtrip.bytes': 400, 'oracle:roundtrip.state_d
 
 Point = collections.namedtuple('Point', ['x', 'y'])
 Triple = collections.namedtuple('Triple', ['first', 'second', 'third'])
+# field names of the pre-2022 namedtuple encoding ({'name','fields','values'}): an ordinary namedtuple may use them too
+Rec = collections.namedtuple('Rec', ['name', 'fields', 'values'])
 
 
 def _classes():
@@ -138,7 +140,7 @@ def make_tree(rng, dts, depth, sig):
     leaf, s = make_leaf(rng, dts)
     sig.append(s)
     return leaf
-  kind = rng.choice(['dict', 'dict', 'frozen', 'list', 'tuple', 'point', 'triple', 'box', 'node', 'subnode', 'emptydict', 'emptylist', 'emptytuple'])
+  kind = rng.choice(['dict', 'dict', 'frozen', 'list', 'tuple', 'point', 'triple', 'rec', 'box', 'node', 'subnode', 'emptydict', 'emptylist', 'emptytuple'])
   sig.append(('c', kind))
   sub = lambda: make_tree(rng, dts, depth - 1, sig)
   if kind in ('dict', 'frozen'):
@@ -153,6 +155,8 @@ def make_tree(rng, dts, depth, sig):
     return Point(sub(), sub())
   if kind == 'triple':
     return Triple(sub(), sub(), sub())
+  if kind == 'rec':
+    return Rec(sub(), sub(), sub())
   if kind == 'box':
     return C['Box'](a=sub(), b=sub(), label=rng.choice(['s1', 's2']))
   if kind == 'node':
@@ -416,6 +420,11 @@ def run_tree(ctx, tree, rng, thresholds, want_mutants=True):
     elif kind == 'seq':
       expect_raise(edit(state, path, lambda d: d.__setitem__(str(len(names)), 1)), 'append element')
       n_mut += 1
+      if names:
+        # same length, one index missing ("a target entry missing from the saved state")
+        k3 = rng.choice(names)
+        expect_raise(edit(state, path, lambda d: d.__setitem__('x' + k3, d.pop(k3))), 'rename index %r' % k3)
+        n_mut += 1
     else:
       expect_raise(edit(state, path, lambda d: d.__setitem__('zz_surplus', 1)), 'add unknown field')
       if names:
